@@ -1,0 +1,89 @@
+//go:build verif
+// +build verif
+
+package gts
+
+// Contracts for package gts, read by /verif/gvc (a verification-condition generator).
+// This file is compiled only with the build tag "verif"; it adds no code to the
+// package and nothing in it is used by the library.  Each "//@" block is keyed by
+// function (and loop ordinal), never by line number.
+
+//@ spec func coord(x int) bool = -1099511627776 <= x && x <= 1099511627776
+
+// ---------------------------------------------------------------------------
+// utils.go
+
+//@ func Min(i, j int) (r int)
+//@   prop C09 C16
+//@   ensures r == min(i, j)
+
+//@ func Max(i, j int) (r int)
+//@   prop C02 C03 C08 C09
+//@   ensures r == max(i, j)
+
+//@ func Compare(i, j int) (r int)
+//@   prop C08
+//@   ensures (i < j ==> r == -1) && (j < i ==> r == 1) && (i == j ==> r == 0)
+
+//@ func Unpack(p [2]int) (a int, b int)
+//@   prop C08
+//@   ensures a == p[0] && b == p[1]
+
+// ---------------------------------------------------------------------------
+// location.go: leaf arithmetic
+
+//@ spec func inSeg(lo int, hi int, x int) bool = lo <= x && x < hi
+
+//@ func rangeCompare(s1, e1, s2, e2 int) (r int)
+//@   prop C19
+//@   ensures r == -1 || r == 0 || r == 1
+//@   ensures r == 0 <==> (min(s1, e1) == min(s2, e2) && max(s1, e1) == max(s2, e2))
+//@   ensures r == -1 <==> (min(s1, e1) < min(s2, e2) || (min(s1, e1) == min(s2, e2) && max(s1, e1) < max(s2, e2)))
+
+//@ func rangeWithin(s, e, l, u int) (r bool)
+//@   prop C03 C19
+//@   ensures r <==> (min(l, u) <= min(s, e) && max(s, e) <= max(l, u))
+
+//@ func rangeOverlap(s, e, l, u int) (r bool)
+//@   prop C03 C19
+//@   ensures r <==> (min(s, e) < max(l, u) && min(l, u) < max(s, e))
+
+// cov(l, x): residue x is denoted by the leaf location l (sites denote nothing).
+//@ spec func cov(l Location, x int) bool =
+//@   (is(l, Point) && x == int(l.(Point))) ||
+//@   (is(l, Ranged) && l.(Ranged).Start <= x && x < l.(Ranged).End) ||
+//@   (is(l, Ambiguous) && l.(Ambiguous).Start <= x && x < l.(Ambiguous).End)
+
+// Between
+//@ func (between Between) Expand(i, n int) (out Location)
+//@   prop C02 C03 C10
+//@   requires coord(int(between)) && coord(i) && coord(n) && 0 <= i && 0 <= int(between)
+//@   ensures is(out, Between)
+//@   ensures n >= 0 && int(between) > i ==> int(out.(Between)) == int(between) + n
+//@   ensures n >= 0 && int(between) < i ==> int(out.(Between)) == int(between)
+//@   ensures n >= 0 && int(between) == i ==> (int(out.(Between)) == i || int(out.(Between)) == i + n)
+//@   ensures n < 0 && int(between) <= i ==> int(out.(Between)) == int(between)
+//@   ensures n < 0 && int(between) > i ==> int(out.(Between)) == max(i, int(between) + n)
+//@   assigns nothing
+
+//@ func (point Point) Expand(i, n int) (out Location)
+//@   prop C02 C03 C10
+//@   requires coord(int(point)) && coord(i) && coord(n) && 0 <= i && 0 <= int(point)
+//@   ensures n >= 0 ==> is(out, Point) && int(out.(Point)) == ite(int(point) < i, int(point), int(point) + n)
+//@   ensures surv: n < 0 && !(i <= int(point) && int(point) < i - n) ==> is(out, Point) && int(out.(Point)) == ite(int(point) < i, int(point), int(point) + n)
+//@   ensures cut: n < 0 && i <= int(point) && int(point) < i - n ==> is(out, Between) && int(out.(Between)) == i
+//@   assigns nothing
+
+//@ func (ranged Ranged) Expand(i, n int) (out Location)
+//@   prop C02 C03 C10
+//@   requires coord(ranged.Start) && coord(ranged.End) && coord(i) && coord(n)
+//@   requires 0 <= ranged.Start && ranged.Start < ranged.End && 0 <= i
+//@   ensures embed: n >= 0 ==> is(out, Ranged) && out.(Ranged).Partial == ranged.Partial &&
+//@      (forall x: cov(out, x) <==> ite(x < i, cov(ranged, x), ite(x >= i + n, cov(ranged, x - n), ranged.Start < i && i < ranged.End)))
+//@   ensures del_cov: n < 0 ==> (forall x: cov(out, x) <==> cov(ranged, ite(x < i, x, x - n)))
+//@   ensures del_gone: n < 0 && i <= ranged.Start && ranged.End <= i - n ==> is(out, Between) && int(out.(Between)) == i
+//@   ensures del_kind: n < 0 && !(i <= ranged.Start && ranged.End <= i - n) ==> is(out, Ranged) &&
+//@      out.(Ranged).Start < out.(Ranged).End &&
+//@      (out.(Ranged).Partial.Partial5 <==> (ranged.Partial.Partial5 || (i <= ranged.Start && ranged.Start < i - n))) &&
+//@      (out.(Ranged).Partial.Partial3 <==> (ranged.Partial.Partial3 || (i <= ranged.End - 1 && ranged.End - 1 < i - n)))
+//@   assigns nothing
